@@ -213,6 +213,11 @@ class PlayoutRun:
                 if prev is not None and p.move not in (None, "none") and not p.move.startswith("new"):
                     lines.append("specapply %s | %s" % (p.move, prev))
                 prev = fen
+            # the game as the rules play it from the root (independent of what the engine exported)
+            mvs = [p.move for p in plies[1:] if p.obs is not None and p.move not in (None, "none")]
+            root = fen_of_obs(plies[0].obs) if plies and plies[0].obs else None
+            if root:
+                lines.append("specplay %s | %s" % (" ".join(mvs), root))
             sblocks.append(lines)
         self.spec_blocks = sblocks
         self.spec_raw = cached_run("playout-spec", SPECDRIVER, sblocks, key)
@@ -243,6 +248,14 @@ class PlayoutRun:
             elif cur is not None:
                 cur[tag] = kv
         return res
+
+    def rules_line(self, gid):
+        """list of dicts (one per ply, in order) from `specplay`: sane, render, legal, exposing"""
+        out = []
+        for ln in self.spec_raw.get(gid, []):
+            if ln.startswith("specply "):
+                out.append(parse_kv(ln)[1])
+        return out
 
     def script_of(self, gid):
         for b in self.blocks:
